@@ -293,6 +293,8 @@ pub struct Receiver {
     max_ports: usize,
     tx: mpsc::Sender<PortEvt>,
     rx: mpsc::UnboundedReceiver<PortReceiveMsg>,
+    /// A message that has been taken out of the queue by recv_chunk but belongs to recv_any.
+    ungot: Option<PortReceiveMsg>,
     receiving: Receiving,
     /// The start of a new message has been stashed by recv_chunk when it reported the
     /// cancellation of the previous message.
@@ -339,6 +341,7 @@ impl Receiver {
             max_ports: max_port_count,
             tx,
             rx,
+            ungot: None,
             receiving: Receiving::Nothing,
             restarted: false,
             credits,
@@ -388,6 +391,14 @@ impl Receiver {
         self.max_ports = max_ports;
     }
 
+    /// Next message from the multiplexer, starting with a message that has been put back.
+    async fn next_msg(&mut self) -> Option<PortReceiveMsg> {
+        match self.ungot.take() {
+            Some(msg) => Some(msg),
+            None => self.rx.recv().await,
+        }
+    }
+
     /// Receives data over the channel.
     ///
     /// Waits for data to become available.
@@ -434,7 +445,7 @@ impl Receiver {
                 }
 
                 // Try to receive next chunk.
-                _ => match self.rx.recv().await {
+                _ => match self.next_msg().await {
                     Some(PortReceiveMsg::Data(data)) => {
                         self.credits.start_return(data.credit, self.remote_port, &self.tx);
 
@@ -460,11 +471,14 @@ impl Receiver {
 
                     // Either aborted transmission or port data to ignore.
                     Some(PortReceiveMsg::PortRequests(req)) => {
-                        self.credits.start_return(req.credit, self.remote_port, &self.tx);
                         if let Receiving::Chunks { .. } = &self.receiving {
+                            // The port message belongs to what follows the aborted transmission;
+                            // put it back for recv_any.
                             self.receiving = Receiving::Nothing;
+                            self.ungot = Some(PortReceiveMsg::PortRequests(req));
                             return Err(RecvChunkError::Cancelled);
                         }
+                        self.credits.start_return(req.credit, self.remote_port, &self.tx);
                     }
 
                     // Port closure.
@@ -520,7 +534,7 @@ impl Receiver {
         loop {
             self.credits.return_flush().await;
 
-            match self.rx.recv().await {
+            match self.next_msg().await {
                 // Data message.
                 Some(PortReceiveMsg::Data(data)) => {
                     self.credits.start_return(data.credit, self.remote_port, &self.tx);
